@@ -152,6 +152,20 @@ def tie(ctx):
                     bad = {kk: v for kk, v in vals.items() if abs(v - 2.0) > 1e-9 and v != 0.0}
                     if bad:
                         violations.append({"why": f"sample normalised against its own profile reads {list(bad.items())[:3]} instead of 2.0", "input": inp, "signature": "c07:self_not_two"})
+                # (1b) ONE profile object serving two samples in a row (a cohort loop over the API): normalising a sample
+                # must not wear the profile out
+                if k % 2 == 0:
+                    try:
+                        prof_shared = Profile.load(gene, pbam, cnr)
+                        sb_ = os.path.join(d, f"s{k}_self", "sample.bam")
+                        first = region_values(Sample(gene, prof_shared, sb_), gene)
+                        second = region_values(Sample(gene, prof_shared, sb_), gene)
+                        stats["shared_profile_pairs"] += 1
+                        bad = [q for q in first if abs(first[q] - second[q]) > 1e-9]
+                        if bad:
+                            violations.append({"why": f"the same sample normalised twice against ONE profile object reads {first[bad[0]]} and then {second[bad[0]]} in region {bad[0]}", "input": inp, "signature": "c07:profile_changed_by_use"})
+                    except AldyException:
+                        pass
                 # (2) k-fold duplication
                 kk = r.randint(2, 5)
                 vals_k, err_k = run(base * kk, "k")
